@@ -26,6 +26,19 @@ claim("C15",
       "(the harness draws it in one chunk, the code in several - chunk invariance is an M: clause).",
       "TLA+ design model checked by TLC + TLC trace validation of recorded get_sub_seed histories", "5/C15")
 
+claim("C04",
+      "TLC checks Batches.tla exhaustively: every interleaving of Submit / GoWait / WaitNext / Finish against an adversarial "
+      "client (free is_ready answers), every objective function with a fix point, MaxPar<=3, up to 3 SMC rounds with "
+      "round-end cancellation and per-round proposal generators; invariants InOrderOnce, Bounded, NoCancelledUsed, NoLeak, "
+      "ScheduleIndependent and liveness Terminates.  Real Rejection and SMC runs on id-valued models are executed through a "
+      "scheduled ClientBase (all is_ready answer scripts of a fixed length, plus seeded random schedules with out-of-order "
+      "task execution); TLC validates each event log against Batches_Trace.tla (P: clauses = the five clauses of C04, "
+      "including digest equality with the sequential native-client run).",
+      "Small-scope bounds on MaxPar / consumed batches / rounds at design level; the code is bound through the ClientBase "
+      "contract only (native-style in-process execution; dask/ipyparallel clusters are not available); digests are sha256 of "
+      "the returned arrays.",
+      "TLA+ design model checked by TLC (safety+liveness) + TLC trace validation of scheduled-client event logs", "5/C04")
+
 ALL = ["C%02d" % i for i in range(1, 21)]
 
 
